@@ -92,12 +92,12 @@ pub fn parse_ctx(s: &str) -> Option<CtxSpec> {
     Some(c)
 }
 
-fn holidays(c: &CtxSpec) -> Option<ContextHolidays> {
+pub fn holidays(c: &CtxSpec) -> Option<ContextHolidays> {
     let cal = |v: &Vec<i64>| -> Option<CompactCalendar> { v.iter().map(|d| ast::date_of(*d)).collect::<Option<CompactCalendar>>() };
     Some(ContextHolidays::new(Arc::new(cal(&c.ph)?), Arc::new(cal(&c.sh)?)))
 }
 
-fn ctx_dump(c: &CtxSpec, events: &[(i64, [u32; 4])]) -> String {
+pub fn ctx_dump(c: &CtxSpec, events: &[(i64, [u32; 4])]) -> String {
     let mut out = vec!["C".to_string(), c.ph.len().to_string()];
     out.extend(c.ph.iter().map(|d| d.to_string()));
     out.push(c.sh.len().to_string());
